@@ -118,7 +118,7 @@ def h_roundtrip(ctx, fmt, chroms, auto=False):
         text1b = text_of(ga, fmt)
         back = tabio.read(io.StringIO(text1), "auto" if auto else fmt)
     except Exception as exc:
-        ctx.claim(False, f"{fmt} write/read raised {type(exc).__name__}", info=str(exc)[:200])
+        claim_raised(ctx, f"{fmt} write/read", exc)
         return
     ctx.claim(text1 == text1b, f"{fmt}: writing the same table twice produces identical bytes")
     after = [tuple(r) for r in ga.data.itertuples(index=False)]
@@ -156,7 +156,7 @@ def h_roundtrip(ctx, fmt, chroms, auto=False):
         back2 = tabio.read(io.StringIO(text2), fmt)
         text3 = text_of(back2, fmt)
     except Exception as exc:
-        ctx.claim(False, f"{fmt} second write raised {type(exc).__name__}")
+        claim_raised(ctx, f"{fmt} second write", exc)
         return
     ctx.claim(text2 == text3, f"{what}: writing the re-read table again produces identical bytes")
     ctx.cover("start 0", Or(*[r[1] == 0 for r in rows]))
@@ -197,7 +197,7 @@ def h_readonly(ctx, fmt, chroms):
     try:
         back = tabio.read(io.StringIO(text), fmt)
     except Exception as exc:
-        ctx.claim(False, f"{fmt} read raised {type(exc).__name__}", info=str(exc)[:200])
+        claim_raised(ctx, f"{fmt} read", exc)
         return
     got = [(r.chromosome, r.start, r.end, "-") for r in back.data.itertuples(index=False)]
     same_multiset(ctx, got, [(r[0], r[1], r[2], "-") for r in rows], f"{fmt}: 1-based file coordinates are read to 0-based half-open")
@@ -221,7 +221,7 @@ def h_autodetect(ctx, fmt, chrom):
     try:
         got = tabio.sniff_region_format(io.StringIO(text))
     except Exception as exc:
-        ctx.claim(False, f"sniff raised {type(exc).__name__}")
+        claim_raised(ctx, "sniff", exc)
         return
     ctx.claim(got == want, f"auto-detection selects the {want} parser for {fmt} lines", info=str((got, text[:60])))
     back = tabio.read(io.StringIO(text), "auto")
@@ -298,7 +298,7 @@ def h_sniff(ctx, grammar):
     except ValueError:
         got = "unrecognized"
     except Exception as exc:
-        ctx.claim(False, f"sniff_region_format raised {type(exc).__name__}", info=str(exc)[:200])
+        claim_raised(ctx, "sniff_region_format", exc)
         return
     finally:
         for k, v in real_patterns.items():
@@ -347,7 +347,7 @@ def h_seg_roundtrip(ctx, nsamples):
     try:
         parsed = list(segio.parse_seg(io.StringIO(text)))
     except Exception as exc:
-        ctx.claim(False, f"parse_seg raised {type(exc).__name__}", info=str(exc)[:200])
+        claim_raised(ctx, "parse_seg", exc)
         return
     ctx.claim([sid for sid, _ in parsed] == ids, "import-seg yields the samples in order, each under its ID")
     for (sid, df), rows in zip(parsed, allrows):
